@@ -126,7 +126,14 @@ def shrink_candidates(plan):
 
 
 def close(a, b, rtol=2e-5, atol=2e-6):
-    return abs(float(a) - float(b)) <= atol + rtol * max(abs(float(a)), abs(float(b)))
+    a, b = float(a), float(b)
+    if a == b or (np.isnan(a) and np.isnan(b)):
+        # equal infinities (a step size that underflowed to 0 has log -inf) and an undefined value
+        # on both sides: the reference recurrence runs into the same arithmetic
+        return True
+    if not (np.isfinite(a) and np.isfinite(b)):
+        return False
+    return abs(a - b) <= atol + rtol * max(abs(a), abs(b))
 
 
 def check_direct(d, V, counters):
@@ -239,12 +246,22 @@ def check_engine(e, V, log, counters):
     C = e["chains"]
     idx = 1
     prev_type = 0
+    underflowed: set = set()
     for ei, (typ, dur, _) in enumerate(e["epochs"][1:]):
         adapt = typ in (1, 2)
         for c in range(C):
             # restart from the current step size at the epoch start (mu = log(10 eps0))
             last = {f: F[f][c, idx - 1] for f in F}
             eps_in = np.exp(last["log_avg_step_size"]) if idx > 1 else last["step_size"]
+            # a chain stuck in the undefined region is fed acceptance 0 at every step and its step
+            # size leaves float32's range (< 1e-36: exp() underflows to 0, logs become -inf, 0 * inf
+            # NaN). From there on the kernel's float32 numbers and a float64 recurrence differ for
+            # reasons that have nothing to do with the rule; the chain is dropped (and counted)
+            # from the epoch in which that happens - all earlier epochs have been compared step by step
+            if c in underflowed or not np.isfinite(eps_in) or eps_in < 1e-36 or np.min(F["step_size"][c, idx:idx + dur]) < 1e-36:
+                underflowed.add(c)
+                counters["probe.step_size_left_float32_range"] = counters.get("probe.step_size_left_float32_range", 0) + 1
+                continue
             if imm is not None and prev_type == 2 and idx > 1:
                 old, new = imm[c, idx - 1], imm[c, idx]
                 tr = (lambda m: np.trace(m)) if old.ndim == 2 else (lambda m: np.sum(m))
